@@ -74,9 +74,8 @@ func c01Case(r *evid.Run, tier string, idx int, g *rng.R) {
 	if idx%25 == 11 {
 		// a wide element and an element with many attributes: sizes around the usual strategy thresholds
 		ws := adoc.Thresholds[:8]
-		if tier == "thorough" {
-			ws = adoc.Thresholds[:10] // every axis from every node is quadratic in the width
-		}
+		// (the same widths in both tiers: every axis from every node is quadratic in the width, and
+		// a 300-wide element already costs minutes)
 		adoc.Widen(g, d, rng.Pick(g, ws), false)
 		adoc.ManyAttrs(g, d, rng.Pick(g, []int{5, 9, 12, 16, 17, 40}))
 		d.Finish()
